@@ -178,6 +178,10 @@ func (w *Worker) EndNontrivial() {
 	}
 }
 
+// WantDetail reports whether expensive descriptive notes are worth producing for the current execution:
+// a violation is pending or a sample is still needed for the evidence.
+func (w *Worker) WantDetail() bool { return w.viol != nil || len(w.samples) < 3 }
+
 // State records an abstract state as reached.
 func (w *Worker) State(s string) { w.states[s] = struct{}{} }
 
